@@ -111,4 +111,54 @@ def ctorMemberOK (m : Member) : Bool :=
   !m.key.isEmpty && validString m.key && validString m.value &&
   m.props.all (fun p => !p.key.isEmpty && validString p.key && validString p.value && (p.hasValue || p.value.isEmpty))
 
+/-! ## deepening (session 3): exact round-trip predicate, size formula, finite-map reference -/
+
+/-- exactly the member lists a W3C header can carry there and back: well formed and still within the
+three limits when serialised (= `wellFormed` and not F30) -/
+def representable (l : List Member) : Bool := wellFormed l && !F30_applies l
+
+/-- a byte that must be percent-encoded inside a value: `%` itself and everything that is not a W3C
+baggage-octet -/
+def needsEscape (c : UInt8) : Bool := c == 0x25 || !baggageOctet c
+
+/-- length of the percent-encoded form: one byte, or three for each byte that needs escaping -/
+def escLen (v : Bytes) : Nat := v.length + 2 * v.countP needsEscape
+
+/-- `key` or `key=escaped` -/
+def propLen (p : Property) : Nat := p.key.length + (if p.hasValue then 1 + escLen p.value else 0)
+
+/-- `key=escaped` followed by `;property` for each property -/
+def memberLen (m : Member) : Nat :=
+  m.key.length + 1 + escLen m.value + (m.props.map (fun p => propLen p + 1)).sum
+
+/-- members separated by one comma each -/
+def headerLen (l : List Member) : Nat := (l.map (fun m => memberLen m + 1)).sum - 1
+
+/-- the size limits as sums over the members (no serialisation needed) -/
+def withinLimitsBySum (l : List Member) : Bool :=
+  l.length ≤ maxMembers && headerLen l ≤ maxBytesPerBaggageString && l.all (fun m => memberLen m ≤ maxBytesPerMembers)
+
+/-- one step of an edit script on a single value -/
+inductive MapOp
+  | set (m : Member)
+  | del (key : Bytes)
+deriving Repr
+
+/-- the reference: a finite map key -> member, as a function -/
+def specStep (f : Bytes → Option Member) : MapOp → Bytes → Option Member
+  | .set m => fun k => if m.key = k then some m else f k
+  | .del key => fun k => if key = k then none else f k
+
+/-- the code's step -/
+def applyOp (b : Baggage) : MapOp → Baggage
+  | .set m => setMember b m
+  | .del key => deleteMember b key
+
+/-- reference for `Extract`: the parent's baggage is kept unless the header is non-empty and parses;
+then the result is a non-empty well-formed baggage the header accounts for (it *replaces* the parent's:
+no more members than the header has list-members) -/
+def extractOK (parent : Baggage) (hdr : Bytes) (result : Baggage) : Bool :=
+  sameMap result parent ||
+    (!hdr.isEmpty && !result.isEmpty && parsedOK hdr result && result.length ≤ (splitOn cComma hdr).length)
+
 end Otel.C11.Spec
